@@ -593,7 +593,7 @@ def execute(plan, trace=False):
                 shape.append((c.k, k))
             _probes(probe, fault, k, op, mev, model, pre_abs, pre_running)
             # ---- compare
-            if vclock.us != world.now_us() and exc is None and _calls_equal(mev, iev):
+            if vclock.us != world.now_us() and exc is None and _calls_equal(mev, iev) and foreign is None:
                 return {"status": "error", "error": f"virtual clock {vclock.us} != HAL clock {world.now_us()} at op {idx}"}
             diff = _compare(cfg, sdef, k, mev, iev, m_after, i_after, exc, exact, pre_running)
             if diff is None and len(ctxs) == 2 and k != "adv":
@@ -611,13 +611,16 @@ def execute(plan, trace=False):
                 kind, msg = diff
                 if kind in owned:
                     raise Violation(prop, f"model.{kind}", f"op {idx} {op0}: {msg}", sig=f"{prop}:model.{kind}", at=idx)
-                foreign = kind
-                probe("foreign_divergence_" + kind)
-                break
+                # a deviation outside this property's projection: note it and keep going - the property is
+                # quantified over all histories, so what follows must still satisfy it
+                if foreign is None:
+                    foreign = kind
+                    probe("foreign_divergence_" + kind)
+                if kind == "exception":
+                    break
         # ---- independent invariants over the recorded history (per machine)
-        if foreign is None:
-            for c in ctxs:
-                sm_invariants.check(prop, cfg, c.history, exact)
+        for c in ctxs:
+            sm_invariants.check(prop, cfg, c.history, exact)
     except Inconclusive:
         status = "inconclusive"
     except Violation as v:
